@@ -140,6 +140,31 @@ func (d *driver) runTranscriptProgram(w emitter, pid int, line []byte) {
 		sacc := frFromBig(big.NewInt(41))
 		mbuf := []byte("scratch-buffer-0000")
 		var hashedPrefix []byte // what the hash state holds besides the pending buffer: the protocol label until the first challenge
+		// arena mode (every second program): all labels and all literal messages of the run are carved out of ONE packed array, in call
+		// order, WITHOUT a capacity limit (table[a:b], as a caller with a label table or a reused frame would): whatever a call writes
+		// behind one of its arguments lands in the arguments of later calls, and the challenges leave the specified chain.  The events
+		// log the INTENDED values.
+		arenaMode := pid%2 == 1
+		var arena, arenaOrig []byte
+		labOff := make([][2]int, len(seq))
+		msgOff := make([][2]int, len(seq))
+		if arenaMode {
+			for k, o := range seq {
+				lbs := labelBytes(o.Label)
+				labOff[k] = [2]int{len(arena), len(arena) + len(lbs)}
+				arena = append(arena, lbs...)
+				if o.Op == "msg" && strings.TrimSuffix(o.Arg, "'") != "mbuf" {
+					m, _ := msgBytes(strings.TrimSuffix(o.Arg, "'"))
+					if strings.HasSuffix(o.Arg, "'") {
+						m = append(m, 0x27)
+					}
+					msgOff[k] = [2]int{len(arena), len(arena) + len(m)}
+					arena = append(arena, m...)
+				}
+			}
+			arena = append(arena, make([]byte, 2048)...) // spare room behind the last entry
+			arenaOrig = append([]byte(nil), arena...)
+		}
 		for k, o := range seq {
 			if o.Op == "hunt" {
 				// an input built from the OTHER side: a counter message is searched for (with the driver's own SHA-256) such that the digest
@@ -185,6 +210,10 @@ func (d *driver) runTranscriptProgram(w emitter, pid int, line []byte) {
 			e := ev{"ev": "t", "prog": pid, "run": run, "k": k, "op": o.Op, "label": bytesToInts(labelBytes(o.Label)), "last": k == len(seq)-1, "twin": kind}
 			var g tailGuard
 			lb := guardSlice(&g, labelBytes(o.Label), byte(0x5a)) // labels and messages are fronts of larger arrays with sentinels behind them
+			if arenaMode {
+				lb = arena[labOff[k][0]:labOff[k][1]]
+				g.checks = append(g.checks, func() bool { return string(arena) == string(arenaOrig) })
+			}
 			switch o.Op {
 			case "new":
 				t = common.NewTranscript(string(lb))
@@ -212,6 +241,9 @@ func (d *driver) runTranscriptProgram(w emitter, pid int, line []byte) {
 					enc = map[string]interface{}{"lit": bytesToInts(m)}
 				}
 				m = guardSlice(&g, m, byte(0x5a))
+				if arenaMode {
+					m = arena[msgOff[k][0]:msgOff[k][1]]
+				}
 				before := append([]byte(nil), m...)
 				t.AppendMessage(m, lb)
 				e["msg"] = enc
